@@ -30,6 +30,10 @@ pub struct Peer {
     pub slave_only: bool,
     /// which port of the node under test it shares a segment with
     pub on_port: usize,
+    /// its Announces carry stepsRemoved 254 (the largest value that still qualifies): a parent at
+    /// the far end of a long chain, the node under test then holds stepsRemoved 255
+    #[serde(default)]
+    pub far: bool,
 }
 
 #[derive(Clone, Debug, serde::Serialize, serde::Deserialize)]
@@ -79,6 +83,13 @@ pub fn run_case(rep: &mut Report, case: &Case, verbose: bool) {
         let idx = sim.add_node(built.node, (case.seed >> (8 + i)) % 1_000_000_000);
         link_ends[p.on_port].push((idx, 0));
         peer_idx.push(idx);
+        if p.far {
+            while sim.announce_steps.len() <= idx {
+                sim.announce_steps.push(None);
+            }
+            sim.announce_steps[idx] = Some(254);
+            rep.ev("peer_with_steps_removed_254");
+        }
     }
     // all clocks share the same true-time origin
     for sn in sim.nodes.iter_mut() {
@@ -319,12 +330,12 @@ fn gen_case(rng: &mut StdRng) -> Case {
         start: 1_700_000_000 * SEC,
     };
     let so0 = rng.gen_bool(0.2);
-    let mut peers = vec![Peer { id: 0x10, p1: if so0 { 255 } else { [1u8, 1, 250][rng.gen_range(0..3)] }, slave_only: so0, on_port: 0 }];
+    let mut peers = vec![Peer { id: 0x10, p1: if so0 { 255 } else { [1u8, 1, 250][rng.gen_range(0..3)] }, slave_only: so0, on_port: 0, far: !so0 && rng.gen_bool(0.2) }];
     if rng.gen_bool(0.6) {
-        peers.push(Peer { id: 0x11, p1: 250, slave_only: rng.gen_bool(0.5), on_port: 0 });
+        peers.push(Peer { id: 0x11, p1: 250, slave_only: rng.gen_bool(0.5), on_port: 0, far: false });
     }
     if n_ports > 1 {
-        peers.push(Peer { id: 0x12, p1: [1u8, 250][rng.gen_range(0..2)], slave_only: rng.gen_bool(0.3), on_port: 1 });
+        peers.push(Peer { id: 0x12, p1: [1u8, 250][rng.gen_range(0..2)], slave_only: rng.gen_bool(0.3), on_port: 1, far: rng.gen_bool(0.1) });
     }
     let mut script = vec![];
     for _ in 0..rng.gen_range(1..8) {
@@ -351,9 +362,9 @@ fn gen_p2p_fault_case(rng: &mut StdRng) -> Case {
     c.cfg.class = 248;
     let so = rng.gen_bool(0.7);
     c.peers = vec![
-        Peer { id: 0x10, p1: 1, slave_only: false, on_port: 0 },
-        Peer { id: 0x11, p1: 255, slave_only: so, on_port: 0 },
-        Peer { id: 0x12, p1: 255, slave_only: so, on_port: 0 },
+        Peer { id: 0x10, p1: 1, slave_only: false, on_port: 0, far: false },
+        Peer { id: 0x11, p1: 255, slave_only: so, on_port: 0, far: false },
+        Peer { id: 0x12, p1: 255, slave_only: so, on_port: 0, far: false },
     ];
     let w = |rng: &mut StdRng| FaultOp::Wait(rng.gen_range(8..16));
     c.script = vec![FaultOp::Mute(1, true), FaultOp::Mute(2, true), w(rng), FaultOp::Mute(0, true), w(rng), FaultOp::Mute(1, false), FaultOp::Mute(2, false), FaultOp::Wait(rng.gen_range(3..8))];
